@@ -387,3 +387,128 @@ Definition resolve (via_histogram : bool) (bs : option float) (nb k : option Z) 
         | None => match nb with Some n => CMode (ByNbin n) | None => CNone end
         end
   end.
+
+(* ------------------------------------------------------------------ the call as a whole *)
+(* Binner(x, y, weights).dohist(binsize=, nbin=, nperbin=, min=, max=, rev=, mergelast=) / histogram(...):
+   the constructor checks the lengths; _get_minmax_and_indices runs before the keywords are looked
+   at (so its IndexError / ValueError come first); then the keyword that wins decides. *)
+Inductive aout := ABinned (b : bout) | ANum (n : nout).
+
+Definition binner_api (patched via_histogram : bool) (c : cols) (rv : bool) (lo hi : option float)
+           (bs : option float) (nb k : option Z) (merge : bool) : result aout :=
+  match resolve via_histogram bs nb k with
+  | CNum k' => match binner_num patched c lo hi k' merge with Ok n => Ok (ANum n) | Err e => Err e end
+  | CMode m => match binner patched c rv lo hi m with Ok b => Ok (ABinned b) | Err e => Err e end
+  | CNone =>
+      if negb (same_len c) then Err EValue else
+      match limits (c_x c) (argsort (c_x c)) lo hi with
+      | Err e => Err e
+      | Ok _ => Err EValue            (* "Send binsize or nbin or nperbin" *)
+      end
+  end.
+
+(* ------------------------------------------------------------------ the object and its dictionary *)
+(* A Binner is a dict.  dohist() starts with self.clear() (util.py:160); calc_stats() decides by
+   KEYS of the dictionary: "nperbin" in self -> keep low/high of the equal-occupancy run, else
+   compute edges and centres; "rev" in self -> compute the statistics.  The state below keeps
+   exactly what those tests look at, plus the cached sort index (self.sort_index, util.py:299-303). *)
+Record bdict := mkD {
+  d_hist : option (list Z);
+  d_rev : option (list Z);
+  d_nperbin : option Z;
+  d_binspec : option (float * float);                     (* dmin, binsize of a binsize/nbin run *)
+  d_lowhigh : option (list float * list float);           (* written by _hist_by_num *)
+  d_edges : option (list (float * float * float));        (* written by calc_stats *)
+  d_rows : option (list (list tgt)) }.
+
+Definition d_empty : bdict := mkD None None None None None None None.
+
+Record bobj := mkO { o_cols : cols; o_sortcache : option (list Z); o_dict : bdict }.
+Definition obj_new (c : cols) : bobj := mkO c None d_empty.
+
+Inductive call :=
+| CallBinned (rv : bool) (lo hi : option float) (m : mode)
+| CallNum (lo hi : option float) (k : Z) (merge : bool).
+
+(* what dohist writes into a dictionary [d0] (the code passes the cleared one) *)
+Definition dohist_into (patched : bool) (c : cols) (d0 : bdict) (cl : call) : result bdict :=
+  match cl with
+  | CallBinned rv lo hi m =>
+      match binner patched c rv lo hi m with
+      | Err e => Err e
+      | Ok b =>
+          match histogram EngC (c_x c) lo hi m with
+          | Err e => Err e
+          | Ok o =>
+              Ok (mkD (Some (b_hist b)) (if dorev c rv then Some (b_rev b) else d_rev d0) (d_nperbin d0)
+                      (Some (p_dmin (o_params o), p_bsize (o_params o))) (d_lowhigh d0) (d_edges d0) (d_rows d0))
+          end
+      end
+  | CallNum lo hi k merge =>
+      match binner_num patched c lo hi k merge with
+      | Err e => Err e
+      | Ok n => Ok (mkD (Some (n_hist n)) (Some (n_rev n)) (Some k) (d_binspec d0)
+                        (Some (n_low n, n_high n)) (d_edges d0) (d_rows d0))
+      end
+  end.
+
+(* calc_stats on whatever dictionary is there (util.py:343-477) *)
+Definition calc_stats_dict (patched : bool) (c : cols) (d : bdict) : result bdict :=
+  match d_hist d with
+  | None => Err EValue                                   (* "run dohist first" *)
+  | Some hist =>
+      let nhist := Z.of_nat (length hist) in
+      let d1 := match d_nperbin d with
+                | Some _ => d
+                | None => match d_binspec d with
+                          | Some (dmin, bs) => mkD (d_hist d) (d_rev d) (d_nperbin d) (d_binspec d) (d_lowhigh d)
+                                                   (Some (edges dmin bs nhist)) (d_rows d)
+                          | None => d
+                          end
+                end in
+      Ok (match d_rev d1 with
+          | Some rev => mkD (d_hist d1) (d_rev d1) (d_nperbin d1) (d_binspec d1) (d_lowhigh d1) (d_edges d1)
+                            (Some (calc_rows patched c nhist rev))
+          | None => d1
+          end)
+  end.
+
+(* one public call on the object: [clear = true] is the code; [clear = false] is the object that
+   forgets self.clear() (kept to state what the clearing is for) *)
+Definition obj_call (patched clear : bool) (o : bobj) (cl : call) : bobj * result bdict :=
+  let c := o_cols o in
+  let s := match o_sortcache o with Some s => s | None => argsort (c_x c) end in
+  let d0 := if clear then d_empty else o_dict o in
+  match dohist_into patched c d0 cl with
+  | Err e => (mkO c (Some s) d0, Err e)
+  | Ok d => match calc_stats_dict patched c d with
+            | Err e => (mkO c (Some s) d, Err e)
+            | Ok d' => (mkO c (Some s) d', Ok d')
+            end
+  end.
+
+(* what a fresh object answers *)
+Definition fresh_answer (patched : bool) (c : cols) (cl : call) : result bdict :=
+  snd (obj_call patched true (obj_new c) cl).
+
+Fixpoint obj_run (patched clear : bool) (o : bobj) (cls : list call) : bobj :=
+  match cls with
+  | [] => o
+  | cl :: t => obj_run patched clear (fst (obj_call patched clear o cl)) t
+  end.
+
+(* ------------------------------------------------------------------ _hist_by_num, binary64 transcription *)
+(* util.py:202-211 literally: ind = arange(n); bsize = float(nperbin); nbin = np.int64((ind[-1] - 0)/bsize) + 1;
+   _do_hist(ind.astype(f8), 0, ind, bsize, nbin): the bin number of position i is C05's bit-exact
+   binnum on the float64 positions.  IntQuotProofs.hist_by_num_f_eq: this IS hist_by_num. *)
+Definition hist_by_num_f (x : list float) (wsort : list Z) (k : Z) (mergelast : bool)
+  : list Z * list Z * list float * list float :=
+  let n := Z.of_nat (length wsort) in
+  let bsize := float_of_Z k in
+  let nbin := f2z_trunc (PrimFloat.div (float_of_Z (n - 1)) bsize) + 1 in
+  let f8ind := map float_of_Z (zseq 0 (length wsort)) in
+  let '(hist, rev0) := chist (binnum f8ind 0%float bsize) nbin (zseq 0 (length wsort)) in
+  let z := repeat 0%float (Z.to_nat nbin) in
+  let '(rev, low, high) := fold_left (remap_step x wsort) (zseq 0 (Z.to_nat nbin)) (rev0, z, z) in
+  if negb (last hist 0 =? k) && mergelast then merge_last hist rev low high
+  else (hist, rev, low, high).
